@@ -680,7 +680,8 @@ def validate_element(S, elm, type_key, errors, path="", relax_min=False, check_a
     here = path + "/" + elm.tag.split("}")[-1]
     if ct is None:
         return  # simple-typed or unknown: nothing structural to check
-    kids = [c for c in elm if isinstance(c.tag, str)]
+    # markup-compatibility preprocessing: mc:AlternateContent (and any other mc: element) is transparent here
+    kids = [c for c in elm if isinstance(c.tag, str) and not c.tag.startswith("{%s}" % MC_NS)]
     d = dfa_for(ct, relax_min)
     seq = [c.tag for c in kids]
     bad = d.first_error(seq)
@@ -765,3 +766,14 @@ def attr_types_for(S, clark, attr_name):
             if a.name == attr_name and a.type not in out:
                 out.append(a.type)
     return out
+
+
+def precompile_all(S, relax=(False,)):
+    """Compile the DFA of every complex type now (harness import time, outside CrossHair): compiling lazily inside a
+    CrossHair run fails (frozenset hashing under its interpreter hooks) and would be repeated on every path."""
+    _tag_index(S)
+    for key in list(S.complex):
+        ct = S.ctype(key)
+        if ct is not None:
+            for r in relax:
+                dfa_for(ct, r)
